@@ -160,7 +160,7 @@ func checkC18(t *testing.T, c Case) *stats.Verdict {
 		}
 		if len(tr) > c.N {
 			mustBeDead[len(tr)-1-c.N] = true
-			if w.puts%c.N == 0 || w.puts%3 == 0 {
+			if w.puts%c.N == 0 || (c.N < 10 && w.puts%3 == 0) || w.puts == c.N+1 {
 				return checkpoint(fmt.Sprintf("after Put(s%d)", serial))
 			}
 		}
